@@ -231,15 +231,21 @@ def standard_main(mod, tier, seed, replay=None):
             if v == "skip":
                 continue
         to_validate.append(rec)
-    try:
-        payload = [{k: v for k, v in rec.items() if not k.startswith("_")} for rec in to_validate]
-        verdicts, stats = tlc.validate(mod.TRACE_MODULE, mod.TRACE_CFG, payload, shards=getattr(mod, "SHARDS", 12),
-                                       timeout=getattr(mod, "TRACE_TIMEOUT", 1500), tag=prop,
-                                       group_key=getattr(mod, "GROUP_KEY", None))
-        rep.add_trace_stats(stats)
-    except tlc.TLCError as e:
-        rep.machinery(str(e))
-        verdicts = {}
+    verdicts = {}
+    acceptors = getattr(mod, "ACCEPTORS", None) or {"_default": (mod.TRACE_MODULE, mod.TRACE_CFG)}
+    for acc, (tmod, tcfg) in acceptors.items():
+        part = [rec for rec in to_validate if rec.get("_acc", "_default") == acc]
+        if not part:
+            continue
+        try:
+            payload = [{k: v for k, v in rec.items() if not k.startswith("_")} for rec in part]
+            vd, stats = tlc.validate(tmod, tcfg, payload, shards=getattr(mod, "SHARDS", 12),
+                                     timeout=getattr(mod, "TRACE_TIMEOUT", 1500), tag=prop + "-" + tmod,
+                                     group_key=getattr(mod, "GROUP_KEY", None))
+            rep.add_trace_stats(stats)
+            verdicts.update(vd)
+        except tlc.TLCError as e:
+            rep.machinery(str(e))
     rep.traces = len(verdicts)
     classify = getattr(mod, "classify", None)
     for tid, v in verdicts.items():
